@@ -172,7 +172,7 @@ func (plugin *ocr3Plugin) Reports(ctx context.Context, seqNr uint64, raw ocr3typ
 	performablesAdded := 0
 	for i, result := range outcome.AgreedPerformables {
 		if len(toPerform) >= plugin.Config.MaxUpkeepBatchSize ||
-			gasUsed+result.GasAllocated+uint64(plugin.Config.GasOverheadPerUpkeep) > uint64(plugin.Config.GasLimitPerReport) ||
+			(len(toPerform) > 0 && gasUsed+result.GasAllocated+uint64(plugin.Config.GasOverheadPerUpkeep) > uint64(plugin.Config.GasLimitPerReport)) ||
 			seenUpkeepIDs[result.UpkeepID.String()] {
 
 			// If report has reached capacity or has existing upkeepID, encode and append this report
